@@ -55,3 +55,34 @@ Theorem C10_inputs_and_parties_reproduced : forall st fs0 outs m fs',
         \/ exists k r n doc, lookup k st = Some r /\ r_node r = AInput n (p_name p) doc).
 Proof. exact compile_inputs_parties. Qed.
 Print Assumptions C10_inputs_and_parties_reproduced.
+
+(* ---------------------------------------------------------------------------------------------
+   Program level, for EVERY program of the whole surface language traced from ANY earlier state of the
+   process (a state tracing can leave behind: C08_history_states). *)
+From NadaV.PyMini Require Import PyMini.
+From NadaV.Model Require Import Rules Corr Mir Surface Trace Compile.
+From NadaV.Proofs Require Import ScalarInv TraceMono C01All C10Program.
+
+(* every input of the MIR was declared by an Input statement of THIS program — at top level, in a function body
+   or in a nested definition — with exactly that name, owning party and documentation string *)
+Theorem C10_inputs_are_declared : forall s0 p m s' fs',
+  fresh_store s0 -> ordered s0 ->
+  run_from GenScalar.G s0 [] p = Ok (m, s', fs') ->
+  forall i, In i (m_inputs m) -> In (i_name i, i_party i, i_doc i) (decls (p_stmts p)).
+Proof. exact (mir_inputs_are_declared GenScalar.G). Qed.
+Print Assumptions C10_inputs_are_declared.
+
+(* whatever the tracer records as an input, anywhere in any program, is a declared input of that program *)
+Theorem C10_recorded_inputs_are_declared : forall fuel ρ ss s ρ' s',
+  exec GenScalar.G fuel ρ ss s = Ok (ρ', s') -> G (declared (decls ss)) (counter s) s s'.
+Proof. exact (exec_declared GenScalar.G). Qed.
+Print Assumptions C10_recorded_inputs_are_declared.
+
+(* one MIR output per returned Output, in the returned order, with its name and receiving party, naming the
+   operation bound to the returned variable and carrying the type recorded for that operation *)
+Theorem C10_outputs_are_the_returned_ones : forall s0 p m s' fs',
+  run_from GenScalar.G s0 [] p = Ok (m, s', fs') ->
+  exists ρ, exec GenScalar.G (stmts_size (p_stmts p)) [] (p_stmts p) s0 = Ok (ρ, s')
+            /\ Forall2 (out_of ρ (store s')) (p_outs p) (m_outputs m).
+Proof. exact (mir_outputs_are_the_returned_ones GenScalar.G). Qed.
+Print Assumptions C10_outputs_are_the_returned_ones.
